@@ -7,6 +7,9 @@ def run(ctx):
     rnd = random.Random(ctx.seed * 11 + 3)
     n = 700 if ctx.quick() else 6000
     pairs = [ec.gen_dyndep_pair(rnd, 'C11_p%d' % i) for i in range(n)]
+    for i in range(40):
+        a = ec.motif_dyndep_not_ready(rnd, 'C11_nr%d_dd' % i)
+        pairs.append((a, a.transformed('C11_nr%d_inl' % i, engine.inline_dyndep)))
     inv = [h for h in (ec.gen_dyndep_invalid(rnd, 'C11_i%d' % i) for i in range(2 * n)) if h]
     known = {k.get('id') for k in ctx.known_list if k.get('property') == 'C11'}
     hists = [x for p in pairs for x in p] + inv
@@ -47,6 +50,31 @@ def run(ctx):
                 if 'dyndep-truncated-after-pipe' in known and h.dd_reason in ('no final newline', 'empty implicit outputs', 'empty implicit inputs') and t.rstrip(' ').endswith('|'):
                     ctx.known_finding('id=dyndep-truncated-after-pipe a dyndep file ending right after "|" is accepted: %r' % t[-40:])
                 else: ctx.violation('invalid-accepted', h.text(), txt)
+    # file-level: extracted parser+loader model vs the real DyndepParser/DyndepLoader (tools/dyndepmodel.py)
+    ddstats = {}
+    if ctx.model:
+        import os, dyndepmodel, vlib
+        os.environ['DYNDEP_MODEL_RUN'] = os.path.join(os.path.dirname(ctx.model), 'dyndep_run')
+        os.environ['DYNDEP_IMPL_RUN'] = os.path.join(vlib.build_impl('asan'), 'impl_run')
+        dyndepmodel._MODEL = dyndepmodel._IMPL = None
+        mism, st_, smp = dyndepmodel.check(ctx.seed, 2500 if ctx.quick() else 40000)
+        ddstats = dict(st_)
+        nb += st_.get('cases', 0)
+        for m_ in mism[:5]:
+            ctx.corr_broken.append('dyndep model vs implementation (%s, %s): impl %s model %s [dyndep file %r]' % (m_['tag'], m_['what'], str(m_['impl'])[:120], str(m_['model'])[:120], m_['content']))
+        if st_.get('ub_self_input_crash', 0) or any(k.startswith('ub_self_input_crash') for k in st_):
+            txt = 'a dyndep file that lists itself as an implicit input of a bound statement (>= 2 statements bound to it) crashes DyndepLoader::LoadDyndeps (vector modified while iterated)'
+            if 'dyndep-self-input-uaf' in known: ctx.known_finding('id=dyndep-self-input-uaf ' + txt)
+            else: ctx.violation('dyndep-self-input-crash', 'see tools/dyndepmodel.py tag ub_self_input\n', txt)
+    # self-input probe: a dyndep file that names ITSELF as an implicit input of one of two statements bound to it
+    import vlib as _v, os as _o
+    _man = b'rule r\n  command = touch $out\nbuild dd: r\nbuild out: r in | dd\n  dyndep = dd\nbuild out2: r in | dd\n  dyndep = dd\n'
+    _dd = b'ninja_dyndep_version = 1\nbuild out: dyndep | dd\nbuild out2: dyndep\n'
+    _rc, _out, _err = _v.run_lines(_o.path.join(_v.build_impl('asan'), 'impl_run'), 'dyndep', ['%s %s %s' % (_man.hex(), b'dd'.hex(), _dd.hex())])
+    nb += 1
+    if _rc != 0 or not _out or _out[0].startswith('CRASH'):
+        ctx.violation('dyndep-self-input-crash', 'component dyndep\ncase %s %s %s\n' % (_man.hex(), b'dd'.hex(), _dd.hex()),
+                      'a dyndep file that lists itself as an implicit input (two statements bound to it) crashes DyndepLoader::LoadDyndeps: %s' % (_out[:1] or _err[-200:]))
     ctx.cov.update(evaluations=nb, distinct_nontrivial=len(nontriv),
                    rule='(a) %d scenario pairs: a graph with dyndep files (source or built, shared by up to 3 statements, adding implicit inputs/outputs/restat) and the same graph with the '
                         'information inlined, same history/schedules: exit class, commands run, final files compared, C04 ordering monitor on both; (b) %d graphs whose dyndep file is '
@@ -54,4 +82,4 @@ def run(ctx):
                         'whether it is invalid, then the build must fail; non-trivial = commands ran / file invalid' % (len(pairs), len(inv)),
                    samples=[{'pair': pairs[0][0].sid, 'manifest': pairs[0][0].g.manifest()[:300], 'dyndep': dict(pairs[0][0].g.ddtext) or {k: v for k, v in pairs[0][0].g.sources.items() if k.startswith('dd')}}] +
                            [{'invalid': h.sid, 'kind': h.dd_kind, 'reason': h.dd_reason, 'text': h.g.sources.get(sorted(h.g.dd_info)[0], '<missing>')} for h in inv[:3]],
-                   distribution=dict(pairs=len(pairs), invalid=kinds))
+                   distribution=dict(pairs=len(pairs), invalid=kinds, dyndep_file_model=ddstats))
